@@ -264,6 +264,23 @@ def apply(c, tr):
         c = copy.deepcopy(c)
         c["cols"] = [c["cols"][i] for i in tr["order"]]
         return c, 1.0
+    if k == "indices":
+        # the same columns, each listed exactly once, selected through SitePattern `indices` in another order
+        # and in mixed notations (non-negative / negative integers, one-column slices)
+        c = copy.deepcopy(c)
+        ncol = len(c["cols"])
+        parts = []
+        for pos, form in zip(tr["order"], tr["forms"]):
+            if form == 0:
+                parts.append(str(pos))
+            elif form == 1:
+                parts.append(str(pos - ncol))
+            elif form == 2:
+                parts.append("%d:%d" % (pos, pos + 1))
+            else:
+                parts.append("%d:%s" % (pos - ncol, "" if pos == ncol - 1 else str(pos - ncol + 1)))
+        c["indices"] = ",".join(parts)
+        return c, 1.0
     if k == "dup":
         c = copy.deepcopy(c)
         cols = []
@@ -288,6 +305,8 @@ def apply(c, tr):
 
 def applicable(c, kind):
     t = c["tree"]["kind"]
+    if c.get("indices") and kind in ("indices", "dup", "col_perm"):
+        return False  # a column selection is already in force: positions refer to the stored alignment
     if kind == "states":
         return c["tip"] in ("noamb", "states")
     if kind == "trifurcate":
@@ -309,7 +328,7 @@ def pair_case(draw, force=None, families=("nucleotide", "nucleotide", "general",
                 A["model"]["rates"] = A["model"]["rates"][:K] + [1.0] * max(0, K - len(A["model"]["rates"]))
     n = phylo.case_topo(A).n
     ncol = len(A["cols"])
-    kinds = ["taxa_perm", "seq_perm", "swap", "col_perm", "dup", "states", "trifurcate", "reroot", "reroot"]
+    kinds = ["taxa_perm", "seq_perm", "swap", "col_perm", "indices", "dup", "states", "trifurcate", "reroot", "reroot"]
     kinds = [k for k in kinds if applicable(A, k)]
     chosen = [force] if force else []
     chosen += draw(st.lists(st.sampled_from(kinds), min_size=0 if force else 1, max_size=2))
@@ -323,6 +342,8 @@ def pair_case(draw, force=None, families=("nucleotide", "nucleotide", "general",
             trs.append({"kind": k, "swaps": draw(st.lists(st.booleans(), min_size=n - 1, max_size=n - 1))})
         elif k == "col_perm":
             trs.append({"kind": k, "order": list(draw(st.permutations(list(range(ncol)))))})
+        elif k == "indices":
+            trs.append({"kind": k, "order": list(draw(st.permutations(list(range(ncol))))), "forms": [draw(st.integers(0, 3)) for _ in range(ncol)]})
         elif k == "dup":
             trs.append({"kind": k, "times": draw(st.integers(2, 4)), "interleave": draw(st.booleans())})
             ncol = ncol * trs[-1]["times"]
